@@ -885,6 +885,40 @@ Lemma terminates_weak_fairness_lemma : forall (progs : list (list str)) (sched :
   exists n, final (run_inf sched n (init progs)) = true.
 Proof. exact terminates_fair_section. Qed.
 
+(* ------------------------------------------------------------------ byte-slice entry points *)
+(* A history through InternBytes / QueryBytes with the caller overwriting its buffers between
+   calls answers exactly like the string history on the contents at call time: the table keeps
+   values, so no later write reaches a key or a log entry. *)
+Lemma bytes_snapshot_lemma : forall ops hp ix lg,
+  run_bops hp ix lg ops = run_ops ix lg (resolve_bops hp ops).
+Proof.
+  induction ops as [|o r IH]; intros hp ix lg; [reflexivity|].
+  destruct o as [o|b|b|b s].
+  - cbn [run_bops resolve_bops run_ops]. destruct o as [s|s|id].
+    + destruct (intern_seq ix lg s) as [[ix1 lg1] ob]. rewrite IH. reflexivity.
+    + destruct (query ix s) as [id ok]. rewrite IH. reflexivity.
+    + rewrite IH. reflexivity.
+  - cbn [run_bops resolve_bops run_ops].
+    destruct (intern_seq ix lg (hp b)) as [[ix1 lg1] ob]. rewrite IH. reflexivity.
+  - cbn [run_bops resolve_bops run_ops].
+    destruct (query ix (hp b)) as [id ok]. rewrite IH. reflexivity.
+  - cbn [run_bops resolve_bops]. apply IH.
+Qed.
+
+(* in particular a write AFTER a call changes no later answer: the two histories below differ
+   only in what the caller does to buffer b after InternBytes(b) returned *)
+Lemma bytes_write_after_call_lemma : forall hp ix lg b s ops,
+  (forall o, In o ops -> match o with BOp _ => True | _ => False end) ->
+  run_bops hp ix lg (BInternBytes b :: BWrite b s :: ops) = run_bops hp ix lg (BInternBytes b :: ops).
+Proof.
+  intros hp ix lg b s ops Hops. rewrite !bytes_snapshot_lemma.
+  cbn [resolve_bops]. f_equal. f_equal.
+  revert hp. induction ops as [|o r IH]; intros hp; [reflexivity|].
+  destruct o as [o|b2|b2|b2 s2]; try (exfalso; exact (Hops _ (or_introl eq_refl))).
+  cbn [resolve_bops]. f_equal. apply IH. intros o' Ho'. apply Hops. right. exact Ho'.
+Qed.
+
+
 (* ------------------------------------------------------------------ examples (non-vacuity) *)
 Definition ex_key : str := [118;101;114;121;108;111;110;103]%N.   (* not inline: 8 symbols *)
 Definition ex_inline : str := [97;98;99]%N.                       (* inline *)
@@ -910,3 +944,10 @@ Proof.
   intros t Ht k. exists (t + k * 2)%nat. split; [lia|].
   rewrite Nat.mod_add by discriminate. apply Nat.mod_small. exact Ht.
 Qed.
+
+Lemma example_bytes :
+  let ops := [BWrite 0 ex_key; BInternBytes 0; BWrite 0 [120;120;120;120;120;120;120;120]%N;
+              BOp (OQuery ex_key); BOp (OIntern ex_key); BOp (OValue 1); BQueryBytes 0; BInternBytes 0] in
+  snd (run_bops heap_empty idx_empty [] ops) =
+  [RIntern 1; RQuery 1 true; RIntern 1; RValue (Some ex_key); RQuery 0 false; RIntern 2].
+Proof. vm_compute. reflexivity. Qed.
